@@ -5,8 +5,17 @@
    groups of StateDB operations as they were made on the real cStateDb (directly by the harness, or by
    the real EVM interpreter / TransitionDb through a recording wrapper), each with what was observed after
    it (Exist / Empty of a focus address, or a panic), then the observed result of CommitMultiStore:
-   the per-address stores, the account number counter and the bank burns of the commit loop in order. *)
-From Evm Require Import Destroy CorrBase.
+   the per-address stores, the account number counter and the bank burns of the commit loop in order.
+
+   Since the round-3 seeds: operations are [xop]s (Model/DestroyX.v): the StateDB calls interleaved with the writes other
+   modules made on the StateDB's current context (ERC-20 / staking precompiles through the keepers, or the harness
+   through the bank keeper directly), each with the observed outcome; and the RAW x/evm store (every key under the
+   storage and code-hash prefixes, as the store iterator returns them) before the transaction, before the commit and
+   after it.  The per-address code / storage of the model's initial world are READ OFF THE RAW STORE with the model's own
+   prefix iteration ([abs_stor] / [abs_code], proved complete for every address in DestroyXProofs.prefix_range_spec);
+   the keeper's view (ForEachStorage / GetCodeHash) must agree with it; the commit's effect on the raw store must be
+   [raw_wipe] of every address the model's commit loop destroys. *)
+From Evm Require Import Destroy DestroyX CorrBase.
 Open Scope Z_scope.
 
 Definition entry := (addr * option account * coins * Z * storage)%type.
@@ -19,12 +28,12 @@ Fixpoint find_entry (l : list entry) (a : addr) : option entry :=
   | en :: r => if e_addr en =? a then Some en else find_entry r a
   end.
 
-Definition world_of (l : list entry) (next : Z) : world :=
+Definition world_of (l : list entry) (next : Z) (r : raw) : world :=
   mkWorld
     (fun a => match find_entry l a with Some (_, ac, _, _, _) => ac | None => None end)
     (fun a => match find_entry l a with Some (_, _, c, _, _) => c | None => [] end)
-    (fun a => match find_entry l a with Some (_, _, _, h, _) => h | None => 0 end)
-    (fun a => match find_entry l a with Some (_, _, _, _, s) => s | None => [] end)
+    (fun a => abs_code r a)
+    (fun a => abs_stor r a)
     next.
 
 (* ---- structural comparisons (coins compared per denomination of the case's denomination list) *)
@@ -86,14 +95,45 @@ Fixpoint burns_eqb (ds : list denom) (a b : list (addr * coins)) : bool :=
   | _, _ => false
   end.
 
+(* ---- raw store *)
+
+Fixpoint raw_eqb (a b : raw) : bool :=
+  match a, b with
+  | [], [] => true
+  | (k, v) :: r, (k', v') :: r' => bytes_eqb k k' && (v =? v') && raw_eqb r r'
+  | _, _ => false
+  end.
+
+(* the keeper's view of an entry (ForEachStorage, GetCodeHash) is what the raw store holds for the address *)
+Definition view_ok (r : raw) (en : entry) : bool :=
+  let '(a, _, _, h, s) := en in (abs_code r a =? h) && stor_eqb (abs_stor r a) s.
+
+(* every storage / code-hash key of the raw store belongs to an address of the case's universe *)
+Definition own_keys (ens : list entry) : list (bytes * bytes) :=
+  map (fun en => (stor_prefix (e_addr en), codehash_key (e_addr en))) ens.
+
+Definition owned (ks : list (bytes * bytes)) (kv : bytes * Z) : bool :=
+  existsb (fun k => has_prefix (fst k) (fst kv) || bytes_eqb (fst kv) (snd k)) ks.
+
+Definition raw_ok (ens : list entry) (r : raw) : bool :=
+  let ks := own_keys ens in
+  wf_raw r && forallb (owned ks) r && forallb (view_ok r) ens.
+
+(* the harness writes a key as (length, the key read as a big-endian number) *)
+Definition craw := list (nat * Z * Z).
+
+Definition expand (c : craw) : raw := map (fun x => let '(n, k, v) := x in (be_bytes n k, v)) c.
+
 (* ---- cases *)
 
-Inductive gobs := GOk (focus : addr) (ex em : bool) | GPanic.
+(* after a group: what the StateDB answers about a focus address - Exist, Empty, GetBalance, GetNonce, GetCodeHash *)
+Inductive gobs := GOk (focus : addr) (ex em : bool) (bal nonce code : Z) | GPanic.
 
 (* (made by the EVM interpreter?, operations, observation after the group) *)
-Definition group := (bool * list op * gobs)%type.
+Definition group := (bool * list xop * gobs)%type.
 
-Definition final := (list entry * Z * list (addr * coins))%type.
+(* entries, next account number, bank burns of the commit loop, raw store before the commit, raw store after it *)
+Definition final := (list entry * Z * list (addr * coins) * craw * craw)%type.
 
 Record dcase := mkCase {
   c_now : Z;
@@ -101,6 +141,7 @@ Record dcase := mkCase {
   c_denoms : list denom;
   c_init : list entry;
   c_next : Z;
+  c_raw : craw;
   c_groups : list group;
   c_final : option final
 }.
@@ -113,38 +154,59 @@ Fixpoint run_groups (e : env) (s : sdb) (gs : list group) : option (option sdb) 
   match gs with
   | [] => Some (Some s)
   | (evm, ops, o) :: r =>
-      if evm && negb (evm_trace e s ops) then None
-      else match run_ops e s ops, o with
-           | Ok s', GOk a ex em =>
+      if evm && negb (xevm_trace e s ops) then None
+      else if negb (xagree e s ops) then None
+      else match run_xops e s ops, o with
+           | Ok s', GOk a ex em bal nonce code =>
                if Bool.eqb (exist (cur s') a) ex && Bool.eqb (is_empty (f_w (cur s')) a) em
+                  && (amt (w_bal (f_w (cur s')) a) evm_denom =? bal) && (nonce_at (f_w (cur s')) a =? nonce)
+                  && (w_code (f_w (cur s')) a =? code)
                then run_groups e s' r else None
            | Panic, GPanic => match r with [] => Some None | _ => None end
            | _, _ => None
            end
   end.
 
+Definition final_ok (c : dcase) (e : env) (f : frame) (w : world) (b : list (addr * coins)) (fin : final) : bool :=
+  let '(ens, next, ob, crpre, crpost) := fin in
+  let rpre := expand crpre in
+  let rpost := expand crpost in
+  let ks := own_keys ens in
+  forallb (entry_ok (c_denoms c) w) ens && (w_next w =? next) && burns_eqb (c_denoms c) b ob
+  (* the raw store at commit time is a view of the model's world at commit time ... *)
+  && wf_raw rpre && forallb (owned ks) rpre
+  && forallb (fun en => (abs_code rpre (e_addr en) =? w_code (f_w f) (e_addr en))
+                        && stor_eqb (w_stor (f_w f) (e_addr en)) (abs_stor rpre (e_addr en))) ens
+  (* ... the commit wipes, for every address the model's loop destroys, exactly its keys ... *)
+  && raw_eqb rpost (fold_left raw_wipe (destroyed_at_commit e f) rpre)
+  (* ... and what is left is the model's final world, in the raw store and in the keeper's view *)
+  && raw_ok ens rpost
+  && forallb (fun en => (abs_code rpost (e_addr en) =? w_code w (e_addr en))
+                        && stor_eqb (w_stor w (e_addr en)) (abs_stor rpost (e_addr en))) ens.
+
 Definition dcase_ok (c : dcase) : bool :=
   let e := env_of c in
-  match run_groups e (init_sdb (world_of (c_init c) (c_next c))) (c_groups c) with
+  let r0 := expand (c_raw c) in
+  raw_ok (c_init c) r0 &&
+  match run_groups e (init_sdb (world_of (c_init c) (c_next c) r0)) (c_groups c) with
   | None => false
   | Some None => match c_final c with None => true | Some _ => false end
   | Some (Some s) =>
       match commit e (cur s), c_final c with
       | Panic, None => true
-      | Ok (w, b), Some (ens, next, ob) =>
-          forallb (entry_ok (c_denoms c) w) ens && (w_next w =? next) && burns_eqb (c_denoms c) b ob
+      | Ok (w, b), Some fin => final_ok c e (cur s) w b fin
       | _, _ => false
       end
   end.
 
-(* the whole transaction, as one list of operations, must give the same verdict through run_tx
+(* the whole transaction, as one list of operations, must give the same verdict through run_xtx
    (the function the theorems are about) *)
-Definition all_ops (c : dcase) : list op := flat_map (fun g => snd (fst g)) (c_groups c).
+Definition all_ops (c : dcase) : list xop := flat_map (fun g => snd (fst g)) (c_groups c).
 
 Definition dcase_tx_ok (c : dcase) : bool :=
-  match run_tx (env_of c) (world_of (c_init c) (c_next c)) (all_ops c), c_final c with
+  match run_xtx (env_of c) (world_of (c_init c) (c_next c) (expand (c_raw c))) (all_ops c), c_final c with
   | TxFailed, None => true
-  | TxOk w b, Some (ens, next, ob) =>
+  | TxOk w b, Some (ens, next, ob, _, _) =>
       forallb (entry_ok (c_denoms c) w) ens && (w_next w =? next) && burns_eqb (c_denoms c) b ob
   | _, _ => false
   end.
